@@ -18,7 +18,10 @@ DYNAMIC tie  whole pipelines (every archive type and CVT centroid method x every
 MODEL tie    the generators reachable from the real objects (generic object-graph walk) are compared, by stream identity
              (SeedSequence entropy + spawn_key) and cursor (bit-generator state after the constructor), with what the extracted
              model Model/Rng.v [build] (runner Model/RunC09.v) says the constructors create -- C09_seed_honoured / C09_opt_ranker_separate /
-             C09_shared_seedsequence_distinct are statements about exactly that table."""
+             C09_shared_seedsequence_distinct are statements about exactly that table; and, for every pyribs call of a tracked run, the set
+             of generators whose bit-generator state advanced is compared with the generators the model's footprint of that call
+             (sched_ask / sched_ask_dqd / sched_tell / sample_elites / cqd_score, compiled by the extracted model from the observed flags:
+             archive empty, active mask, restarted emitters) draws a positive number of variates from."""
 import copy
 import json
 import os
@@ -48,7 +51,9 @@ CONFIG = {
         "exec and generators smuggled through containers are not followed); its allow-list table of third-party stochastic constructors",
         "Model/Rng.v is a hand-written description of which generators each pyribs constructor creates and which operation draws from "
         "which; tied to the code by (i) the inventory verdict checked by Coq, (ii) the stream-identity / cursor comparison of the extracted "
-        "[build] with the generators found in the real objects, (iii) the differential runs; all sampled, none a proof about the Python",
+        "[build] with the generators found in the real objects (generic object-graph walk; reads bit_generator.state / seed_seq of numpy "
+        "Generators reachable from the pyribs objects), (iii) the per-call comparison of the generators that advanced with the extracted "
+        "footprints, (iv) the differential runs; all sampled, none a proof about the Python",
         "numpy PCG64 / SeedSequence, sklearn k_means, scipy.stats.qmc Sobol / Halton, pycma: external; 'different stream identity => "
         "different numbers' is an observation about them (oracle seed-sensitive), not a theorem",
         "pickle of numpy Generators restores the bit-generator state exactly (observed by oracle checkpoint, not proved)",
@@ -65,8 +70,9 @@ CONFIG = {
                   "coq/Refine/RngInventoryOK.v (generated on every run from the current source) is the instance for ribs/: Coq evaluates the verdict.",
     "level_note": "Partial by nature. NOT proved: that the Python code performs no draw outside the inventoried sites (the scan is trusted, "
                   "see trusted base), that Model/Rng.v's constructors / footprints describe the code (sampled: stream identity and constructor "
-                  "cursor of every reachable generator are compared with the extracted model on every generated pipeline; footprints only "
-                  "through the differential runs), bit-identical reproduction itself (oracles on sampled pipelines: every archive type and "
+                  "cursor of every reachable generator, and per pyribs call the set of generators that advanced, are compared with the "
+                  "extracted model on every generated pipeline; variate COUNTS are not compared -- numpy's ziggurat consumes a variable number "
+                  "of words -- and Generator.integers(1, ...) consumes none, so the archive generator is ignored while exactly one elite is stored), bit-identical reproduction itself (oracles on sampled pipelines: every archive type and "
                   "centroid method, every emitter / ES / ranker combination the library accepts, both schedulers, int and SeedSequence seeds), "
                   "and 'different seeds draw different streams' (a statement about PCG64 / k_means / Sobol / Halton: observed). CVTArchive "
                   "accepts only int seeds for kmeans / scrambled_sobol / halton (sklearn and scipy reject SeedSequence); the pickle clause "
@@ -322,17 +328,24 @@ class Pipeline:
     """runs a case step by step; every pyribs call is bracketed by global-state snapshots and a wall-clock guard (the guard is not an
     oracle: a call that hangs in run A makes the case unusable; one that hangs only in run B / C is a divergence from run A)"""
 
-    def __init__(self, case, mode, alt=False):
+    def __init__(self, case, mode, alt=False, track=False):
         self.case, self.mode = case, mode
+        self.track = track        # record, per pyribs call, which reachable generators advanced (footprint tie with Model/Rng.v)
+        self.gen_table = None     # [(component, generator)] after the constructors
+        self.footprints = []      # (step name, pop sx, [(component, stream identity)] of the generators whose state changed)
         self.trace = []           # (step name, observation)
         self.disturbed = []       # (step index, step name, which)
         self.gens = None
         self.alt = alt
         self.step = 0
 
-    def call(self, name, fn, foreign):
+    def call(self, name, fn, foreign, pop=None):
         for act in foreign.get(str(self.step), []):
             foreign_action(act)
+        before = None
+        if self.track and self.gen_table is not None and pop is not None:
+            before = [g.bit_generator.state for _, g in self.gen_table]
+            n_before = len(self.built[0])
         g0 = global_state()
         old = signal.signal(signal.SIGALRM, _alarm)
         signal.setitimer(signal.ITIMER_REAL, CALL_LIMIT)
@@ -346,6 +359,11 @@ class Pipeline:
         bad = global_diff(g0, global_state())
         if bad:
             self.disturbed.append((self.step, name, bad))
+        if before is not None:
+            changed = [(c, gen_identity(g)) for (c, g), b in zip(self.gen_table, before) if not _same_state(b, g.bit_generator.state)]
+            # Generator.integers(1, size=n) consumes nothing: with exactly one elite a sample_elites call leaves the archive generator where it was
+            one = n_before == 1 or len(self.built[0]) == 1
+            self.footprints.append([name, pop(out) if callable(pop) else pop, changed, one])
         self.step += 1
         return out
 
@@ -368,43 +386,59 @@ class Pipeline:
             emitters.append(em)
         sched = self.call("scheduler", lambda: build_scheduler(archive, emitters, case), foreign)
         self.built = (archive, emitters, sched)
+        if self.track:
+            ag = reachable_generators([archive])
+            self.gen_table = [(0, g) for g in ag]
+            for i, em in enumerate(emitters):
+                self.gen_table += [(i + 1, g) for g in reachable_generators([em]) if not any(g is h for h in ag)]
+        n_em = len(emitters)
+        extra = [1 if e.get("es") == "pycma_es" else 0 for e in case["emitters"]]
+
+        def restarts():
+            return [getattr(em, "restarts", 0) or 0 for em in emitters]
+
+        def pop_ask(empty):
+            return lambda out: [0, empty, [bool(x) for x in sched.active] if hasattr(sched, "active") else [True] * n_em, extra]
+
+        def pop_tell(r0):
+            return lambda out: [2, [b > a for a, b in zip(r0, restarts())]]
         dqd = is_dqd(case)
         nsteps_built = self.step
 
         def maybe_ckpt():
             nonlocal archive, emitters, sched
             if ckpt is not None and self.step == ckpt:
+                self.ckpt_trace_index = len(self.trace)
                 blob = pickle.dumps((archive, emitters, sched))
                 archive, emitters, sched = pickle.loads(blob)
-                self.ckpt_trace_index = len(self.trace)
 
         for it in range(case["iters"]):
             if dqd:
                 maybe_ckpt()
-                sols = self.call("ask_dqd %d" % it, sched.ask_dqd, foreign)
+                sols = self.call("ask_dqd %d" % it, sched.ask_dqd, foreign, pop=[1, bool(archive.empty)])
                 sols = np.array(sols)
                 self.trace.append(("ask_dqd %d" % it, enc({"solutions": sols, "sizes": self.sizes(sched)})))
                 obj, meas, jac = evaluate_dqd(sols)
                 maybe_ckpt()
                 n0 = len(ADD_LOG)
-                self.call("tell_dqd %d" % it, lambda: sched.tell_dqd(obj, meas, jac), foreign)
+                self.call("tell_dqd %d" % it, lambda: sched.tell_dqd(obj, meas, jac), foreign, pop=[3])
                 self.trace.append(("tell_dqd %d" % it, enc({"add": ADD_LOG[n0:], "contents": archive_contents(archive), "emitters": emitter_state(emitters)})))
             maybe_ckpt()
-            sols = self.call("ask %d" % it, sched.ask, foreign)
+            sols = self.call("ask %d" % it, sched.ask, foreign, pop=pop_ask(bool(archive.empty)))
             sols = np.array(sols)
             self.trace.append(("ask %d" % it, enc({"solutions": sols, "sizes": self.sizes(sched), "active": self.active(sched)})))
             obj, meas = evaluate(sols)
             maybe_ckpt()
             n0 = len(ADD_LOG)
-            self.call("tell %d" % it, lambda: sched.tell(obj, meas), foreign)
+            self.call("tell %d" % it, lambda: sched.tell(obj, meas), foreign, pop=pop_tell(restarts()))
             self.trace.append(("tell %d" % it, enc({"add": ADD_LOG[n0:], "contents": archive_contents(archive), "emitters": emitter_state(emitters)})))
             for k, n in case.get("probes", {}).get(str(it), []):
                 maybe_ckpt()
                 if k == "sample" and not archive.empty:
-                    r = self.call("sample_elites %d" % it, lambda n=n: archive.sample_elites(n), foreign)
+                    r = self.call("sample_elites %d" % it, lambda n=n: archive.sample_elites(n), foreign, pop=[4, n, False])
                     self.trace.append(("sample_elites %d" % it, enc(r)))
                 elif k == "cqd" and case["archive"]["kind"] in ("grid", "cvt", "sliding"):
-                    r = self.call("cqd_score %d" % it, lambda n=n: archive.cqd_score(iterations=2, target_points=n, penalties=3, obj_min=-30.0, obj_max=0.0), foreign)
+                    r = self.call("cqd_score %d" % it, lambda n=n: archive.cqd_score(iterations=2, target_points=n, penalties=3, obj_min=-30.0, obj_max=0.0), foreign, pop=[5, 2, n])
                     self.trace.append(("cqd_score %d" % it, enc({"mean": float(r.mean), "scores": np.asarray(r.scores), "targets": np.asarray(r.target_points)})))
         self.final = (archive, emitters, sched)
         self.nsteps = self.step
@@ -649,11 +683,18 @@ def has_pycma(case):
     return any(e.get("es") == "pycma_es" for e in case["emitters"])
 
 
-def run_mode(case, mode, alt=False):
+def run_mode(case, mode, alt=False, track=False, keep_partial=False):
+    """(pipeline, error).  With keep_partial a run that raises is returned with the trace it produced so far plus a final 'raised' entry,
+    so that it can be compared with the reference run like any other (the first divergence is usually earlier than the exception)."""
+    p = Pipeline(case, mode, alt, track)
     try:
-        return Pipeline(case, mode, alt).run(), None
+        return p.run(), None
     except Exception as e:  # noqa
-        return None, "%s: %s" % (type(e).__name__, str(e)[:300])
+        err = "%s: %s" % (type(e).__name__, str(e)[:300])
+        if not keep_partial:
+            return None, err
+        p.trace.append(("raised (after %d pyribs calls)" % p.step, {"error": err}))
+        return p, err
 
 
 def check_case(case, driver=None, want=None):
@@ -687,16 +728,13 @@ def check_case(case, driver=None, want=None):
               step=st, step_name=name, which=which, run=label, found=True, component=None)
     undisturbed(A, "A")
     # -- O1 / O2
-    B, errb = run_mode(case, "B")
-    if B is None:
-        P("global-independent", "depends-on-global-random-state", "run B (other global seeds, foreign draws) raised %s while run A did not" % errb, found=True, step=None,
-          step_name=None, component=None)
-    else:
+    B, errb = run_mode(case, "B", keep_partial=True)
+    if True:
         undisturbed(B, "B")
         d = first_diff(A.trace, B.trace)
         if d is not None:
-            A2, _ = run_mode(case, "A")
-            d2 = first_diff(A.trace, A2.trace) if A2 is not None else None
+            A2, _ = run_mode(case, "A", keep_partial=True)
+            d2 = first_diff(A.trace, A2.trace)
             comp = attribute(case, d[1], d[2], A.trace)
             if d2 is not None:
                 comp2 = attribute(case, d2[1], d2[2], A.trace)
@@ -712,14 +750,11 @@ def check_case(case, driver=None, want=None):
                   step=d[0], step_name=d[1], detail=d[2], component=comp, found=True, method=method if comp == "archive" else None)
     # -- O4 checkpoint
     if case.get("checkpoint") is not None and not has_pycma(case) and want in (None, "checkpoint", "reproducible"):
-        C, errc = run_mode(case, "C")
-        if C is None:
-            P("checkpoint", "pickle-checkpoint-diverges", "pickle.dumps/loads of (archive, emitters, scheduler) at step %d raised %s" % (case["checkpoint"], errc),
-              step=case["checkpoint"], step_name=None, component=None, found=True)
-        else:
+        C, errc = run_mode(case, "C", keep_partial=True)
+        if True:
             undisturbed(C, "C")
             d = first_diff(A.trace, C.trace)
-            if d is not None and d[0] < getattr(C, "ckpt_trace_index", 0):
+            if d is not None and d[0] < getattr(C, "ckpt_trace_index", len(C.trace)):
                 # differs BEFORE the pickle round trip although seeds and global state are those of run A: not a checkpoint matter
                 comp = attribute(case, d[1], d[2], A.trace)
                 if not any(p["oracle"] == "reproducible" for p in probs) and want in (None, "reproducible"):
@@ -750,6 +785,46 @@ def check_case(case, driver=None, want=None):
                 P("spawn-distinct", "shared-seedsequence-same-stream", "emitters %d and %d (same configuration, same SeedSequence object) emit identical rows in every ask" % (i, j),
                   step=None, step_name=None, component="emitter %d" % j, found=True)
     return probs, info
+
+
+def footprint_check(case, driver):
+    """per pyribs call of a tracked run: the generators that advanced (by component and stream identity) vs the generators the
+    footprint of Model/Rng.v (compiled by the extracted model) draws from.  Returns (problem or None, number of calls compared)."""
+    if driver is None:
+        return None, 0
+    A, err = run_mode(case, "A", track=True)
+    if A is None or not A.footprints:
+        return None, 0
+    out = driver.call("C09", model_case_sx(case) + [[fp[1] for fp in A.footprints]])
+    if out[0] != 1:
+        return {"what": "model build failed", "model": out}, 0
+    sid_of = {(r[0], r[1]): (r[2], tuple(r[3])) for r in out[1]}
+    n = 0
+    dqd_empty = False
+    for (name, pop, changed, one), drawn in zip(A.footprints, out[2]):
+        want = sorted({(c, r) for c, r in map(tuple, drawn)})
+        if pop[0] == 1:
+            dqd_empty = bool(pop[1])
+        if pop[0] == 0 and dqd_empty:
+            # a GradientOperatorEmitter with initial_solutions whose ask_dqd saw an empty archive returned no parents: its ask draws
+            # coefficients for ZERO rows when another emitter's solution made the archive non-empty in between (the model counts
+            # batch_size rows there) -- not compared
+            skip = {i + 1 for i, e in enumerate(case["emitters"]) if e["type"] == "gradop" and e.get("init") is not None}
+            want = [(c, r) for c, r in want if c not in skip]
+            changed = [(c, s) for c, s in changed if c not in skip]
+        if one and pop[0] != 5:
+            want = [(c, r) for c, r in want if (c, r) != (0, 0)]
+            changed = [(c, s) for c, s in changed if c != 0]
+        if any(c < 0 for c, r in want):
+            return {"what": "the model's footprint of '%s' names a generator that does not exist / a global source" % name, "step_name": name, "model": drawn}, n
+        want_ids = sorted((c, sid_of[(c, r)]) for c, r in want)
+        got_ids = sorted(changed)
+        n += 1
+        if want_ids != got_ids:
+            return {"what": "pyribs call '%s': generators that advanced %s differ from the footprint of the model %s (op %s)" % (
+                name, [[c, list(map(str, s))] for c, s in got_ids], [[c, ROLE[r]] for c, r in want], pop),
+                "step_name": name, "implementation": [[c, str(s)] for c, s in got_ids], "model": [[c, ROLE[r], str(sid_of[(c, r)])] for c, r in want], "op": pop}, n
+    return None, n
 
 
 def model_check(case, driver):
@@ -974,7 +1049,7 @@ THEOREMS = {
     "checkpoint": ["C09_checkpoint", "C09_pipeline_checkpoint"],
     "seed-sensitive": ["C09_seed_honoured (stream identity; that different identities give different numbers is observed)"],
     "spawn-distinct": ["C09_shared_seedsequence_distinct", "C09_spawn_distinct"],
-    "model": ["correspondence Model/Rng.v [build] vs generators of the real objects (C09_seed_honoured, C09_opt_ranker_separate)"],
+    "model": ["correspondence Model/Rng.v [build] / footprints vs generators of the real objects (C09_seed_honoured, C09_opt_ranker_separate, C09_pyribs_owned)"],
 }
 
 
@@ -1102,7 +1177,7 @@ def check(rep, tier, seed, driver):
             cases.append(("sys", gen_case(rng, tier, sched=sc, et=et)))
     n_random = 400 if tier == "quick" else 6000
     cases += [("rnd", gen_case(rng, tier)) for _ in range(n_random)]
-    budget = 30.0 if tier == "quick" else 420.0
+    budget = 30.0 if tier == "quick" else 360.0
     n_sys = sum(1 for k, _ in cases if k != "rnd")
     t0 = time.time()
     for ci, (origin, case) in enumerate(cases):
@@ -1113,9 +1188,10 @@ def check(rep, tier, seed, driver):
             with np.errstate(all="ignore"):
                 probs, info = check_case(case, driver)
                 mt = model_check(case, driver) if info["unsupported"] is None else None
+                fp, nfp = (footprint_check(case, driver) if (info["unsupported"] is None and not probs and mt is None) else (None, 0))
         except Exception as e:  # noqa
-            probs, info, mt = [{"oracle": "harness", "kind": "crash", "what": "%r\n%s" % (e, traceback.format_exc()[-1500:]), "found": False}], {
-                "unsupported": None, "steps": 0, "restarts": 0}, None
+            probs, info, mt, fp, nfp = [{"oracle": "harness", "kind": "crash", "what": "%r\n%s" % (e, traceback.format_exc()[-1500:]), "found": False}], {
+                "unsupported": None, "steps": 0, "restarts": 0}, None, None, 0
         a = case["archive"]
         rep.count("archive_%s" % (a["kind"] if a["kind"] != "cvt" else "cvt_" + a["method"]))
         rep.count("sched_" + case["sched"])
@@ -1137,11 +1213,15 @@ def check(rep, tier, seed, driver):
                 rep.count("shared_seedsequence_pairs")
             if mt is None:
                 rep.count("model_tie_checked")
+            rep.count("footprint_calls_compared", nfp)
         nt = nontrivial(case, info)
         rep.case(case, nt, sample=case if nt else None)
         if mt is not None:
             probs.append({"oracle": "model", "kind": "constructor-stream-mismatch", "what": mt["what"], "detail": mt, "found": False,
                           "component": "component %s" % mt.get("component"), "step": None, "step_name": None})
+        if fp is not None:
+            probs.append({"oracle": "model", "kind": "footprint-mismatch", "what": fp["what"], "detail": fp, "found": False, "component": fp.get("step_name", "").split()[0],
+                          "step": None, "step_name": fp.get("step_name")})
         for p in probs:
             dynamic_kinds.add(p["kind"])
             if p["oracle"] == "harness":
